@@ -450,7 +450,7 @@ def _get_iso_8601_week(
         year += 1
 
     fmt = "%Y-%j"
-    string = f"{year}-{ordinal}"
+    string = f"{year:04d}-{ordinal}"
 
     dt = datetime.datetime.strptime(string, fmt)
 
